@@ -36,6 +36,62 @@ def width(s):
         return width(s[1])
     raise Unsupported('node ' + str(t))
 
+def well_typed(s):
+    """Width discipline of an IR tree (serialised): None if fine, else a short
+    description of the first problem.  The reference masks every slot and
+    operand, the real simplifier assumes well-typed input, so comparing them on
+    ill-typed lifted semantics (a C11 matter) would be meaningless."""
+    t = s[0]
+    try:
+        if t in ('I', 'D'):
+            return None
+        if t == 'M':
+            return well_typed(s[1])
+        if t == 'S':
+            w = width(s[1])
+            if not (0 <= s[2] < s[3] <= w):
+                return 'slice [%d:%d] of a %d-bit value' % (s[2], s[3], w)
+            return well_typed(s[1])
+        if t == 'C':
+            pos = None
+            for e, a, b in sorted(s[1], key=lambda x: x[1]):
+                # a value wider than its slot is truncated to the slot by convention (movsx, bswap, cwde are
+                # lifted that way); the reference masks every slot accordingly
+                if pos is not None and a != pos:
+                    return 'compose slots not contiguous at %d' % a
+                pos = b
+                r = well_typed(e)
+                if r:
+                    return r
+            return None
+        if t == '?':
+            if width(s[2]) != width(s[3]):
+                return 'cond branches of %d and %d bits' % (width(s[2]), width(s[3]))
+            for x in s[1:4]:
+                r = well_typed(x)
+                if r:
+                    return r
+            return None
+        if t == '=':
+            if width(s[1]) != width(s[2]) and s[2][0] != 'I' and not (s[1][0] == 'D' and s[1][2] <= 2):
+                # (flags are 1-bit identifiers that hold 32-bit constants or wider expressions by convention)
+                return '%d-bit value assigned to %d-bit destination' % (width(s[2]), width(s[1]))
+            return well_typed(s[1]) or well_typed(s[2])
+        if t == 'O':
+            op, args = s[1], s[2]
+            if op in ('+', '*', '^', '&', '|', '==') or (op == '-' and len(args) == 2):
+                ws = set(width(a) for a in args if a[0] != 'I')
+                if len(ws) > 1:
+                    return 'operands of %s have widths %s' % (op, sorted(ws))
+            for a in args:
+                r = well_typed(a)
+                if r:
+                    return r
+            return None
+    except Unsupported:
+        return None
+    return None
+
 def parity8(v):
     v &= 0xff
     c = 1
